@@ -228,7 +228,7 @@ DRIVERS["C03"] = C03
 # ---------------------------------------------------------------------------
 # C18: crash at every container access / callback of an update, then recover
 # ---------------------------------------------------------------------------
-from ..containers import _Ctx, InjectedFault
+from ..containers import _Ctx, InjectedFault, SimStall
 from .model import model_step, ModelReject
 
 
@@ -466,7 +466,6 @@ class C17:
         aw = dict(cfg["weights"])
         aw.update({"sete": 30, "setv": 30, "inpl": 15, "unreg": 15, "regf": 8, "unregf": 8, "regk": 6, "unregk": 6,
                    "load": 10, "setc": 4, "refresh": 0, "cleanup": 0, "verify": 0})
-        hg.eg.no_eqne = True
         ops = []
         freeze = []
 
@@ -599,3 +598,177 @@ class C17:
 
 
 DRIVERS["C17"] = C17
+
+
+# ---------------------------------------------------------------------------
+# C12: pickle "restart" at arbitrary points; identical behaviour and isolation of the copies
+# ---------------------------------------------------------------------------
+import pickle
+
+
+def insert_markers(rng, ops, marker_fn, lo=1, hi=3):
+    """Insert hi-lo+1.. markers at random positions of ops (never two in a row at position 0)."""
+    ops = list(ops)
+    n = rng.randint(lo, hi)
+    for _ in range(n):
+        pos = rng.randint(0, len(ops))
+        ops.insert(pos, marker_fn(rng))
+    return ops
+
+
+def compare_expr_pairwise(prop, m1, m2, where, stats=None):
+    """Definitions of two managers must agree: same targets; expression text, ==, hash, value, dependencies."""
+    d1, d2 = O.definitions(m1), O.definitions(m2)
+    if d1 != d2:
+        s1, s2 = set(d1), set(d2)
+        raise Violation(prop + ".definitions", "%s: definitions differ: only in the original %s, only in the copy %s"
+                        % (where, sorted(s1 - s2)[:2], sorted(s2 - s1)[:2]))
+    for tid, t in m1.tasks.items():
+        if tid not in m2.tasks:
+            raise Violation(prop + ".hash", "%s: task id %s of the original is not found among the copy's tasks (hash/eq disagree)" % (where, tid))
+        t2 = m2.tasks[tid]
+        e1, e2 = getattr(t, "expr", None), getattr(t2, "expr", None)
+        if e1 is None:
+            continue
+        if not (e1 == e2) or hash(e1) != hash(e2):
+            raise Violation(prop + ".expr_eq", "%s: expression of %s: == is %s, hashes %s" % (where, tid, e1 == e2, "equal" if hash(e1) == hash(e2) else "differ"))
+        try:
+            v1 = e1._get_value()
+            err1 = None
+        except Exception as ex:      # e.g. an index out of range for a computed key: both must agree
+            v1, err1 = None, type(ex).__name__
+        try:
+            v2 = e2._get_value()
+            err2 = None
+        except Exception as ex:
+            v2, err2 = None, type(ex).__name__
+        if err1 != err2 or not same(v1, v2):
+            raise Violation(prop + ".expr_value", "%s: expression of %s evaluates to %r (%s) in the original, %r (%s) in the copy"
+                            % (where, tid, v1, err1, v2, err2))
+        if sorted(str(x) for x in e1._get_dependencies()) != sorted(str(x) for x in e2._get_dependencies()):
+            raise Violation(prop + ".expr_deps", "%s: dependencies of the expression of %s differ" % (where, tid))
+        if sorted(str(x) for x in t.dependencies) != sorted(str(x) for x in t2.dependencies) or \
+                sorted(str(x) for x in t.targets) != sorted(str(x) for x in t2.targets):
+            raise Violation(prop + ".task_sets", "%s: targets/dependencies of task %s differ" % (where, tid))
+
+
+class C12:
+    prop = "C12"
+
+    @staticmethod
+    def generate(ctx, run):
+        rc = rng_for(ctx.seed, "C12", run, "cfg")
+        wo = {"regf": 0, "unregf": 0, "regk": 3 if rc.random() < 0.3 else 0, "unregk": 1, "sete": 45, "inpl": 10}
+        cfg = swarm_config(rc, ctx.tier, weights_over=wo)
+        cfg["g_restricted"] = rc.random() < 0.85
+        spec = gen_spec(rng_for(ctx.seed, "C12", run, "spec"), cfg)
+        hg = HistoryGen(rng_for(ctx.seed, "C12", run, "ops"), cfg, spec)
+        ops = hg.history()
+        rm = rng_for(ctx.seed, "C12", run, "markers")
+        ops = insert_markers(rm, ops, lambda r: ("pickle", r.choice(["mirror", "mirror", "iso_copy", "iso_orig"])), 1, 3)
+        return {"cfg": cfg, "spec": spec.to_json(), "ops": ops}
+
+    @staticmethod
+    def execute(ctx, case):
+        prop = "C12"
+        xd = ctx.xd
+        spec = Spec.from_json(case["spec"])
+        cfg = case["cfg"]
+        ex = Exec(xd, spec, cfg["g_restricted"], cfg["salt"])
+        other = None          # (mode, world, snapshot or None)
+        restarts = 0
+        i = -1
+
+        def finish_other(where):
+            nonlocal other
+            if other is None:
+                return
+            mode, w2, snap = other
+            if mode in ("iso_copy", "iso_orig"):
+                d = O.diff_snapshot(snap, O.snapshot(w2), same)
+                if d:
+                    raise Violation(prop + ".isolation", "%s: assignments made to %s changed %s: %s"
+                                    % (where, "the restored copy" if mode == "iso_copy" else "the original",
+                                       "the original" if mode == "iso_copy" else "the restored copy", d))
+            other = None
+
+        try:
+            for i, op in enumerate(case["ops"]):
+                if op[0] == "pickle":
+                    where = "pickle restart before op %d" % i
+                    finish_other(where)
+                    w = ex.world
+                    try:
+                        blob = pickle.dumps((w.mgr, w.rootobj, w.ftasks, w.knobs), protocol=pickle.HIGHEST_PROTOCOL)
+                        mgr2, roots2, ft2, kn2 = pickle.loads(blob)
+                    except SimStall:
+                        raise
+                    except BaseException as e:
+                        if isinstance(e, (KeyboardInterrupt, SystemExit)):
+                            raise
+                        raise Violation(prop + ".pickle_fails", "%s: pickling/unpickling the manager raised %s: %s"
+                                        % (where, type(e).__name__, str(e)[:200]), exc=type(e).__name__)
+                    w2 = World.adopt(spec, xd, cfg["salt"], mgr2, roots2, ft2, kn2)
+                    restarts += 1
+                    ex.count("fault:restart_pickle")
+                    if mgr2 is w.mgr or any(roots2[k] is w.rootobj[k] for k in roots2):
+                        raise Violation(prop + ".shared", "%s: the restored manager shares objects with the original" % where)
+                    compare_expr_pairwise(prop, w.mgr, mgr2, where)
+                    tr, exc = run_traced(lambda: mgr2.verify())
+                    if exc is not None:
+                        raise Violation(prop + ".verify", "%s: verify() of the restored manager raised %s: %s" % (where, type(exc).__name__, exc))
+                    d = O.diff_support(O.support(w.mgr), O.support(mgr2))
+                    if d:
+                        raise Violation(prop + ".index", "%s: index supports differ: %s" % (where, d))
+                    c1, c2 = w.contents(), w2.contents()
+                    for loc in spec.leaves:
+                        if not same(c1[loc], c2[loc]):
+                            raise Violation(prop + ".contents", "%s: %s holds %r in the original, %r in the copy" % (where, path_str(loc), c1[loc], c2[loc]))
+                    for name, t in w.knobs.items():
+                        if not same(t.prev_value, w2.knobs[name].prev_value):
+                            raise Violation(prop + ".knob_state", "%s: linear knob %s lost its state" % (where, name))
+                    mode = op[1]
+                    if mode == "mirror":
+                        other = ("mirror", w2, None)
+                    elif mode == "iso_copy":
+                        # the history continues on the copy; the original must stay as it is
+                        other = ("iso_copy", w, O.snapshot(w))
+                        ex.world = w2
+                    else:
+                        other = ("iso_orig", w2, O.snapshot(w2))
+                    continue
+                st = ex.step(op)
+                if st is None:
+                    continue
+                where = "op %d (%s) after %d pickle restart(s)" % (i, op[0], restarts)
+                if st.exc is not None:
+                    raise Violation(prop + ".exception", "%s raised %s: %s" % (where, type(st.exc).__name__, st.exc))
+                if other is not None and other[0] == "mirror":
+                    w2 = other[1]
+                    tr2, exc2 = run_traced(lambda: w2.apply(op))
+                    if exc2 is not None:
+                        raise Violation(prop + ".copy_exception", "%s: raised %s: %s on the restored copy only" % (where, type(exc2).__name__, exc2))
+                    c1, c2 = ex.world.contents(), w2.contents()
+                    for loc in spec.leaves:
+                        if not same(c1[loc], c2[loc]):
+                            # two managers with different insertion histories are two schedules: under KF-1 they may differ
+                            cls = prop + (".mirror.gcyclic" if st.info.g_cyclic_trig else ".mirror")
+                            if st.info.g_cyclic_trig:
+                                ex.count("kf1_mirror_divergence")
+                                other = None
+                                break
+                            raise Violation(cls, "%s: %s holds %r in the original, %r in the restored copy" % (where, path_str(loc), c1[loc], c2[loc]))
+                try:
+                    ex.check_contents(st.info.values, where, st.info, prop)
+                except Violation as v:
+                    if v.cls.endswith(".gcyclic"):
+                        ex.count("stopped_on_kf1_divergence")
+                        break
+                    raise
+            finish_other("end of history")
+        except Violation as v:
+            return _outcome(ex, v, i, restarts > 0)
+        return _outcome(ex, None, None, restarts > 0, None, digest(sorted(ex.stats.items())))
+
+
+DRIVERS["C12"] = C12
